@@ -183,4 +183,50 @@ example : LibOk [] [⟨[65], some ⟨[65], [], [⟨some [110], 1, 0, .rect ⟨5,
   refine ⟨rfl, ?_, rfl, ?_, trivial⟩
   · intro lay h; cases h; exact ⟨by simp, by decide⟩
   · intro lay h; cases h; exact ⟨by simp, by decide⟩
+theorem addShape_pre (g : LayerShapes) (net : Bytes) (s : Shape) (h : groupPre g = true) : groupPre (addShape g net s) = true :=
+  groupCanon_pre _ (addShape_canon g net s h)
+
+theorem foldl_addShape_pre : ∀ (ss : List Shape) (g : LayerShapes), groupPre g = true →
+    groupPre (ss.foldl (fun acc s => addShape acc [] s) g) = true := by
+  intro ss
+  induction ss with
+  | nil => intro g h; exact h
+  | cons s r ih => intro g h; exact ih _ (addShape_pre g [] s h)
+
+/-- **abstract views**: every shape group the exporter writes for ports / blockages carries the layer's
+    table numbers, rectangles with a corner and non-negative sizes, and paths with non-negative widths -/
+theorem c14_abstract_groups_canon (tbl : LayerTbl) (pin : Bool)
+    (ht : ∀ r ∈ tbl, inI16 r.1 = true ∧ (∀ n, r.2.1 = some n → inI16 n = true) ∧ (∀ n, r.2.2 = some n → inI16 n = true)) :
+    ∀ (m : List (Int × List Shape)) (gs : List LayerShapes), exportLayerMap tbl pin m = .ok gs → gs.all groupPre = true := by
+  intro m
+  induction m with
+  | nil => intro gs h; simp only [exportLayerMap, Out.ok.injEq] at h; subst h; rfl
+  | cons x r ih =>
+    intro gs h
+    obtain ⟨ln, ss⟩ := x
+    simp only [exportLayerMap] at h
+    split at h
+    · cases h
+    · rename_i row hrow
+      split at h
+      · rename_i pn more hpn hmore
+        simp only [Out.ok.injEq] at h; subst h
+        simp only [List.all_cons, Bool.and_eq_true]
+        refine ⟨?_, ih more hmore⟩
+        have hmem := List.mem_of_find?_eq_some hrow
+        have hkey : (row.1 == ln) = true := List.find?_some (p := fun (r : Int × Option Int × Option Int) => r.1 == ln) hrow
+        have hln : row.1 = ln := by simpa using hkey
+        obtain ⟨h1, h2, h3⟩ := ht row hmem
+        have hpn' : inI16 pn = true := by
+          cases pin with
+          | true => exact h2 pn (by simpa using hpn)
+          | false => exact h3 pn (by simpa using hpn)
+        unfold shapesOf
+        apply foldl_addShape_pre
+        simp [groupPre, ← hln, h1, hpn']
+      · cases h
+/-- non-vacuity: one port layer with a flipped rectangle and a path -/
+example : exportLayerMap [(5, some 7, some 8)] true [(5, [.rect ⟨4, 4⟩ ⟨0, 1⟩, .path [⟨0, 0⟩, ⟨3, 0⟩] 2])] =
+    .ok [⟨some (5, 7), [⟨[], some ⟨0, 1⟩, 4, 3⟩], [], [⟨[], 2, [⟨0, 0⟩, ⟨3, 0⟩]⟩]⟩] := by decide
+
 end L21.RawProto
